@@ -301,11 +301,29 @@ func enum(rb *setz.RoaringBitmap, md map[uint32]struct{}, op sim.Op, idx int, pr
 			return !((op.D != 0 && len(got) >= op.D) || len(got) > limit)
 		})
 	case "All":
-		for x := range rb.All() {
+		// obtained once, ranged twice (the second time completely)
+		seq := rb.All()
+		for x := range seq {
 			got = append(got, x)
 			if (op.D != 0 && len(got) >= op.D) || len(got) > limit {
 				break
 			}
+		}
+		n2, ok2 := 0, true
+		for x := range seq {
+			if n2 >= len(md) || n2 > limit {
+				ok2 = false
+				break
+			}
+			if _, member := md[x]; !member {
+				ok2 = false
+				break
+			}
+			n2++
+		}
+		if !ok2 || n2 != len(md) {
+			return &sim.Violation{Class: "enumeration_incomplete:All", Site: name + ".All",
+				Detail: fmt.Sprintf("op %d: a second range over the same All() sequence produced %d values, the set has %d", idx, n2, len(md))}
 		}
 	}
 	if op.D == 0 && len(buckets) >= 3 {
